@@ -36,7 +36,9 @@ import (
 	"verif/internal/ev"
 )
 
-const rule = "case = rapid-drawn (key pool, 120-400 primary client steps: puts of 2-24 KiB (several MiB in total), gets, 2-4 key transaction commits, " +
+const rule = "case = rapid-drawn (in half of the cases a pre-history of the primary's directory: 1-3 rounds of 1-15 writes + flush (log rotation), " +
+	"0-10 more writes, clean close, reopen, so that the log directory holds older files and log retention has work; primary log sync none / batch / immediate; " +
+	"0-2 acknowledging raw replicas; key pool, 120-400 primary client steps: puts of 2-24 KiB (several MiB in total), gets, 2-4 key transaction commits, " +
 	"rare sleeps of 5-1200 ms; optional second client goroutine issuing a Get every 2 ms; heartbeat interval 100-500 ms / timeout 1-2 s with or without " +
 	"empty heartbeat messages; 0-2 healthy replicas (real replication.Manager + engine) attached before the first step; one fault-injected replica " +
 	"attached before a drawn step of the first third: stalled_reader (StreamWAL opened, Recv never called), tcp_stall (real replica behind a TCP proxy " +
@@ -196,6 +198,13 @@ func record(c *Case, r *Result) {
 			}
 		}
 	}
+	ev.R().Count("acker_acks", int(r.AckerAcks))
+	if r.LogFilesAtStart >= 2 {
+		ev.R().Count("old_log_files_at_start", r.LogFilesAtStart-1)
+		if r.LogFilesAtEnd > 0 && r.LogFilesAtEnd < r.LogFilesAtStart {
+			ev.R().Count("log_files_removed_by_retention", r.LogFilesAtStart-r.LogFilesAtEnd)
+		}
+	}
 	if c.Healthy > 0 && r.Verdict == "ok" {
 		ev.R().Count("healthy_converge_ms_total", int(r.ConvergeMs))
 		if r.ConvergeMs >= 15000 {
@@ -220,6 +229,12 @@ func TestProp(t *testing.T) {
 			infra(r.Msg)
 		}
 		nt, classes := classify(&c)
+		if r.LogFilesAtStart >= 2 {
+			classes = append(classes, "primary_log_dir_has_old_files(observed)")
+		}
+		if r.LogFilesAtEnd > 0 && r.LogFilesAtEnd < r.LogFilesAtStart {
+			classes = append(classes, "retention_removed_log_files(observed)")
+		}
 		if c.Fault.Class == "no_ack" && !ev.Flag("missing_ack_drop") {
 			ev.R().Exclude("missing_ack_drop")
 		}
